@@ -118,6 +118,36 @@ def job_panics(job):
     return res
 
 
+def _panics_concretely(job, exc, extra):
+    """the run reached a panic on every path: replay a member of the cell natively"""
+    kind, params, seed = job
+    rnd = random.Random(seed + 11)
+    o2s = lambda x: '-' if x is None else str(x)
+    if kind in ('build', 'build_real_score'):
+        spec, ecl, ver, mode = params
+        data = [c01.concrete_char(rnd, c) for c in spec]
+        if data is None:
+            return None
+        req = 'build %s %s %s %s -' % (OV.hexs(data), o2s(ecl), o2s(ver), o2s(mode))
+        name = 'build len=%d ecl=%s version=%s mode=%s' % (len(spec), ecl, ver, mode)
+    elif kind == 'encode':
+        v, l, m, n = params
+        req = 'encode %s %d %d %d' % (OV.hexs(c06.random_payload(rnd, m, n)), l, m, v)
+        name = 'encode V%02d-%s %s n=%d' % (v + 1, iso.LEVELS[l], iso.MODES[m], n)
+    else:
+        return None
+    native = OV.Native(extra['native'])
+    ans = native.ask(req)
+    native.close()
+    if ans.startswith('PANIC') or ans == 'ABORT':
+        return {'failures': [{'key': 'C10/panic', 'confirmed': True, 'what': '%s panics for every content of this shape: %s  [%s]' % (name, ans[:100], req[:120]),
+                              'replay': {'request': req}}], 'obligations': 1, 'evaluations': 1, 'discharged': 0}
+    return None
+
+
+job_panics.on_concrete_panic = _panics_concretely
+
+
 def confirm_get(m, l):
     """a wrong capacity threshold is a C10 violation when the native build panics (debug profile: overflow checks on)"""
     def conf(values, native):
